@@ -1,5 +1,7 @@
 #!/bin/bash
-# usage: tools/matrix.sh [seed-root]  — runs every check against every seeded change; prints a matrix (1 = alarm).
+# usage: tools/matrix.sh [seed-root]  — runs every check against every seeded change; prints a matrix
+# (X = the check reports a violation, u = it only reports obligations it could not decide, . = silent).
+# MATRIX_WT: scratch worktree to use; MATRIX_BIN: a frozen copy of bin/bclverif (so that a rebuild during the run does not mix versions).
 ROOT=${1:-/verif/seeded}
 PROPS="C01 C02 C03 C04 C05 C06 C07 C08 C09 C10 C11 C12 C13 C14 C15 C16 C17 C18 C19 C20"
 WT=${MATRIX_WT:-/tmp/scratch/matrixwt}
@@ -11,7 +13,16 @@ for d in $ROOT/*/; do
   git -C $WT checkout -q -- . ; git -C $WT clean -fdq
   git -C $WT apply $p 2>/dev/null || { echo "$id: does not apply"; continue; }
   printf "%-8s" $id
-  out=$(for prop in $PROPS; do ( BCL_REPO=$WT /verif/run $prop quick -evidence /tmp/scratch/m-$prop.json >/dev/null 2>&1; echo "$prop $?" ) & done; wait)
-  for prop in $PROPS; do code=$(echo "$out" | awk -v p=$prop '$1==p{print $2}'); case $code in 0) printf "  .";; 1) printf "  X";; *) printf "  E";; esac; done; echo
+  TAG=$(basename $WT)
+  out=$(for prop in $PROPS; do (
+    if [ -n "${MATRIX_BIN:-}" ]; then
+      GOFLAGS=-mod=mod GOPROXY=off GOSUMDB=off GOTOOLCHAIN=local $MATRIX_BIN -repo $WT -verif /verif -prop $prop -tier quick -evidence /tmp/scratch/m-$TAG-$prop.json >/tmp/scratch/m-$TAG-$prop.out 2>&1; rc=$?
+    else
+      BCL_REPO=$WT /verif/run $prop quick -evidence /tmp/scratch/m-$TAG-$prop.json >/tmp/scratch/m-$TAG-$prop.out 2>&1; rc=$?
+    fi
+    if [ $rc -eq 1 ] && ! grep -q "violated:" /tmp/scratch/m-$TAG-$prop.out; then rc=u; fi
+    echo "$prop $rc" ) & done; wait)
+  for prop in $PROPS; do code=$(echo "$out" | awk -v p=$prop '$1==p{print $2}'); case $code in 0) printf "  .";; 1) printf "  X";; u) printf "  u";; *) printf "  E";; esac; done; echo
 done
+rm -f /tmp/scratch/m-$(basename $WT)-*.json /tmp/scratch/m-$(basename $WT)-*.out
 git -C /repo worktree remove --force $WT
